@@ -23,9 +23,9 @@ EXHAUSTIVE = {"quick": True, "thorough": True}
 ASSUMPTIONS = [
     "tie A: every function of src/rfc1055.c (context_init, open, close, encode_octet, decode_octet, encode, transition, decode) is translated from clang's "
     "typed AST on every run (tools/gen/cloops.py -> Gen/SlipFns.lean: switch as an if-chain, do-while(0), break, the context as its two fields, source and "
-    "sink as the prelude's scripts); proved over the translation: gen_rfc1055_context_init and gen_rfc1055_encode - for every source and sink whose "
-    "failures are negative codes the run of the C encoder ends within one round per answer of the source and is the model's run (same octets into the sink, "
-    "same return, source left at the same place) - (Ufw.Tie.SlipFns.*); the translated decoder is compared by running only",
+    "sink as the prelude's scripts); proved over the translation: gen_rfc1055_context_init, gen_rfc1055_encode and gen_rfc1055_decode - for every decoder "
+    "state, every source and every sink whose failures are negative codes the run of the C encoder / decoder ends within one round per answer of the source "
+    "and is the model's run (same return, same decoder state afterwards, same octets in the sink, source left at the same place) - (Ufw.Tie.SlipFns.*)",
     "tie B: lean/Ufw/Model/Slip.lean is a hand transcription of src/rfc1055.c (decoder as a one-octet transition function) tied to the code by the correspondence run",
     "sources and sinks are octet-style drivers owned by the harness (chunk adaptation is C17's subject); a source answering 0 is outside the model",
 ]
